@@ -211,6 +211,26 @@ RecsOf(c) ==
         : k \in DOMAIN DB[cat] } : cat \in Range(Cats) }
 
 ---------------------------------------------------------------------------
+(* --lookup name1,name2,... : rate names without connecting (beyond the listed properties; bound in C03's lookup leg) *)
+LowerChar(c) ==
+    CASE c = "A" -> "a" [] c = "B" -> "b" [] c = "C" -> "c" [] c = "D" -> "d" [] c = "E" -> "e" [] c = "F" -> "f" [] c = "G" -> "g"
+      [] c = "H" -> "h" [] c = "I" -> "i" [] c = "J" -> "j" [] c = "K" -> "k" [] c = "L" -> "l" [] c = "M" -> "m" [] c = "N" -> "n"
+      [] c = "O" -> "o" [] c = "P" -> "p" [] c = "Q" -> "q" [] c = "R" -> "r" [] c = "S" -> "s" [] c = "T" -> "t" [] c = "U" -> "u"
+      [] c = "V" -> "v" [] c = "W" -> "w" [] c = "X" -> "x" [] c = "Y" -> "y" [] c = "Z" -> "z" [] OTHER -> c
+RECURSIVE Lower(_)
+Lower(s0) == IF s0 = "" THEN "" ELSE LowerChar(CharAt(s0, 1)) \o Lower(SubSeq(s0, 2, Len(s0)))
+LookupCats(n) == {cat \in Range(Cats) : n \in DOMAIN DB[cat]}
+NotFound(names) == {n \in Range(names) : LookupCats(n) = {}}
+\* names of the database that contain an unknown name, ignoring case
+Suggestions(names) == {<<u, cat, n>> \in (NotFound(names) \X Range(Cats) \X UNION {DOMAIN DB[c] : c \in Range(Cats)}) :
+                          n \in DOMAIN DB[cat] /\ Contains(Lower(n), Lower(u))}
+LookupFound(names) == {<<cat, n>> \in (Range(Cats) \X Range(names)) : n \in DOMAIN DB[cat]}
+LookupStatus(names) ==
+    IF NotFound(names) # {} THEN 3
+    ELSE IF \E p \in LookupFound(names) : DB[p[1]][p[2]].fail # <<>> THEN 3
+    ELSE IF \E p \in LookupFound(names) : DB[p[1]][p[2]].warn # <<>> THEN 2 ELSE 0
+
+---------------------------------------------------------------------------
 (* cases *)
 NoSw == [product |-> "none", c |-> <<0>>, p |-> <<"none", 0>>]
 EmptyMap == [x \in {} |-> 0]
@@ -264,6 +284,7 @@ Init ==
     /\ status = 0
     /\ recs = {}
     /\ IF Mode = "oracle" THEN \E k \in 1..Len(Input) : case = Input[k]
+       ELSE IF Mode = "lookup" THEN case = BaseCase("server")
        ELSE IF Mode = "mclist" THEN case \in McListCaseSet
        ELSE IF Mode = "mcmix" THEN case \in McMixCaseSet
        ELSE case \in {c \in McCaseSet : ValidCase(c)}
@@ -358,6 +379,12 @@ RecsConsistent == Done =>
 \* emission: the terminal state of every case, as JSON, for the replay
 ShownSizes == [cat \in {"kex", "key"} |->
                  [i \in 1..Len(lines[cat]) |-> SizeShown(case, cat, lines[cat][i].name)]]
+LookupInput == IF Mode = "lookup" THEN JsonDeserialize(IOEnv.VERIF_CASES) ELSE <<>>
+EmitLookup == Mode = "lookup" =>
+    PrintT(ToJson([k \in 1..Len(LookupInput) |->
+        [found |-> LookupFound(LookupInput[k]), notfound |-> NotFound(LookupInput[k]), similar |-> Suggestions(LookupInput[k]),
+         status |-> LookupStatus(LookupInput[k])]]))
+
 Emit == Done => PrintT(ToJson([id |-> case.id, lines |-> lines, status |-> status, recs |-> recs,
                               advisory |-> Advisory(case), exposed |-> Exposed(case),
                               sizes |-> ShownSizes,
